@@ -7,7 +7,7 @@ use serde_json::{json, Value};
 pub const DEF: PropDef = PropDef {
     id: "C12",
     level: "exploration",
-    rule: "complete enumeration of all strings up to the length bound over a 20-symbol alphabet tuned to position bookkeeping (quotes, parentheses, LF, CR, apostrophe, the letters of 's / 're / 'n', a 2-byte letter, digit, dot, underscore, space, NBSP, ignorable punctuation) plus all glued/spaced sequences of multi-line strings, comments, suffixes, words, numbers and newlines; every token of the real lexer is checked structurally against the source; non-trivial = at least 2 tokens, or a token spanning a line break, or a suffix token; distinct = distinct text",
+    rule: "complete enumeration of all strings up to the length bound over a 20-symbol alphabet tuned to position bookkeeping (quotes, parentheses, LF, CR, apostrophe, the letters of 's / 're / 'n', a 2-byte letter, digit, dot, underscore, space, NBSP, ignorable punctuation) plus all glued/spaced sequences of multi-line strings, comments, suffixes, words, numbers and newlines; plus the same pieces after prefixes that push the line or column to 254..257 and 65535..65536 (newlines, spaces, a comment of that many lines, a long string); every token of the real lexer is checked structurally against the source; non-trivial = at least 2 tokens, or a token spanning a line break, or a suffix token; distinct = distinct text",
     assumptions: &[
         "the oracle is structural (slices, gaps, line/column arithmetic recomputed from the source), it does not know which alias maps to which keyword (C02's business)",
         "tokens whose spelling ends in a line break are exempt from the end-position rule, as the property states",
@@ -38,7 +38,20 @@ fn build(tier: Tier) -> Box<dyn Check> {
         parts.push(acc.clone());
     }
     let seqs = Space::union(parts);
-    Box::new(C12 { fams: vec![("chars".into(), chars), ("pieces".into(), seqs)] })
+    // far positions: lines and columns around 2^8 and 2^16
+    let tails: Space<String> = Space::union(vec![pieces.map(|p| p.to_string()), pieces.product(&seps.product(&pieces, |s, p| format!("{}{}", s, p)), |a, b| format!("{}{}", a, b))]);
+    let ks: Space<usize> = Space::of(vec![254, 255, 256, 257, 65535, 65536]);
+    let kinds: Space<usize> = Space::of(vec![0, 1, 2, 3]);
+    let far = ks.product(&kinds, |k, kind| (k, kind)).product(&tails, |(k, kind), t| {
+        let prefix = match kind {
+            0 => "\n".repeat(k),
+            1 => " ".repeat(k),
+            2 => format!("({})", "\n".repeat(k)),
+            _ => format!("\"{}\" ", "é".repeat(k / 2)),
+        };
+        format!("{}{}", prefix, t)
+    });
+    Box::new(C12 { fams: vec![("chars".into(), chars), ("pieces".into(), seqs), ("far-positions".into(), far)] })
 }
 
 fn gap_ok(gap: &str) -> Result<(), char> {
@@ -91,12 +104,29 @@ fn id_consistent(tok: &Token) -> Result<(), String> {
     }
 }
 
-/// (line, byte column) of byte offset `off` in `src`
-fn line_col(src: &str, off: usize) -> (u32, u32) {
-    let before = &src.as_bytes()[..off];
-    let line = 1 + before.iter().filter(|b| **b == b'\n').count() as u32;
-    let line_start = before.iter().rposition(|b| *b == b'\n').map_or(0, |p| p + 1);
-    (line, (off - line_start) as u32)
+/// incremental (line, byte column) bookkeeping over increasing offsets (linear in the text)
+struct Pos<'a> {
+    src: &'a [u8],
+    at: usize,
+    line: u32,
+    line_start: usize,
+}
+
+impl<'a> Pos<'a> {
+    fn new(src: &'a str) -> Self {
+        Pos { src: src.as_bytes(), at: 0, line: 1, line_start: 0 }
+    }
+    /// (line, column) of `off` (must not decrease between calls)
+    fn locate(&mut self, off: usize) -> (u32, u32) {
+        while self.at < off {
+            if self.src[self.at] == b'\n' {
+                self.line += 1;
+                self.line_start = self.at + 1;
+            }
+            self.at += 1;
+        }
+        (self.line, (off - self.line_start) as u32)
+    }
 }
 
 pub fn check_tokens(src: &str, ctx: &mut Ctx) {
@@ -105,6 +135,7 @@ pub fn check_tokens(src: &str, ctx: &mut Ctx) {
     let mut ntok = 0usize;
     let mut interesting = false;
     let mut obs = String::new();
+    let mut pos = Pos::new(src);
     for tok in Lexer::new(src) {
         ntok += 1;
         if ntok > src.len() + 2 {
@@ -134,7 +165,7 @@ pub fn check_tokens(src: &str, ctx: &mut Ctx) {
             ctx.violation("empty-token", format!("empty token {:?} at byte {}", tok.id, off));
             break;
         }
-        let (l, c) = line_col(src, off);
+        let (l, c) = pos.locate(off);
         let st = tok.range.start();
         if (st.line, st.column) != (l, c) {
             ctx.violation(
@@ -144,7 +175,7 @@ pub fn check_tokens(src: &str, ctx: &mut Ctx) {
         }
         if !tok.spelling.ends_with('\n') {
             let last_len = tok.spelling.chars().last().map_or(1, |c| c.len_utf8());
-            let (ll, lc) = line_col(src, off + len - last_len);
+            let (ll, lc) = pos.locate(off + len - last_len);
             let en = tok.range.end();
             if (en.line, en.column) != (ll, lc + last_len as u32) {
                 ctx.violation(
@@ -179,7 +210,15 @@ impl Check for C12 {
         self.fams.iter().map(|(n, s)| (n.clone(), s.len())).collect()
     }
     fn describe(&self, fam: usize, idx: u64) -> Value {
-        json!({ "text": self.fams[fam].1.get(idx) })
+        let t = self.fams[fam].1.get(idx);
+        if t.len() > 600 {
+            let head: String = t.chars().take(20).collect();
+            let n = t.chars().count();
+            let tail: String = t.chars().skip(n - 40).collect();
+            json!({"text": format!("{}…({} bytes, {} line breaks)…{}", head, t.len(), t.matches('\n').count(), tail)})
+        } else {
+            json!({ "text": t })
+        }
     }
     fn run_case(&self, fam: usize, idx: u64, ctx: &mut Ctx) {
         let text = self.fams[fam].1.get(idx);
